@@ -66,7 +66,10 @@ def work(item):
     res = Result(f"{kind}|{p['label']}")
     from orquestra.quantum import evolution as EV
 
-    res.fn(EV.time_evolution, EV.time_evolution_for_term, EV.time_evolution_derivatives, EV._generate_circuit_sequence)
+    try:  # evidence only: a renamed private helper must not break the check
+        res.fn(EV.time_evolution, EV.time_evolution_for_term, EV.time_evolution_derivatives, EV._generate_circuit_sequence)
+    except AttributeError:
+        pass
     try:
         {"term": _w_term, "sum": _w_sum, "deriv": _w_deriv, "reject": _w_reject}[kind](res, p)
     except Refuse as e:
